@@ -85,14 +85,21 @@ def unit_compute(model, sizes):
     return recs
 
 
-def unit_rate(model, sizes, perm, player_order=None, limit=False):
-    """perm: presentation order of the teams; player_order: {team: order of its players} in presentation B"""
+def unit_rate(model, sizes, perm, player_order=None, limit=False, generic=False):
+    """perm: presentation order of the teams; player_order: {team: order of its players} in presentation B;
+    generic: sizes = (1,)*n, every team has a symbolic number of members (pyvc/teams.py) and the listed
+    member is the arbitrary one"""
     n = len(sizes)
     player_order = dict(player_order or {})
-    S = extract.Scratch(model)
+    if generic:
+        from .. import teams as T
+        S = T.scratch(model)
+    else:
+        S = extract.Scratch(model)
     game.stub_tm_real(S)
     game.stub_phi_real(S)
-    shape = f"sizes={sizes},pi={perm}" + (f",players={player_order}" if player_order else "") + (",limit_sigma=True" if limit else "")
+    member = (lambda row, j: row.g) if generic else (lambda row, j: row[j])
+    shape = (f"sizes={sizes}" if not generic else f"n={n},any-team-size") + f",pi={perm}" + (f",players={player_order}" if player_order else "") + (",limit_sigma=True" if limit else "")
     fn = f"{model}.rate"
     ctx = Ctx("R", feas_timeout_ms=300)
     recs = []
@@ -103,8 +110,13 @@ def unit_rate(model, sizes, perm, player_order=None, limit=False):
         mB, _ = game.mk_model(ctx, S, limit_sigma=limit)
         ctx.assume(term(params["kappa"]) <= 1)
         r = [ctx.number(f"r{i}", kinds=(KINT, KFLOAT)) for i in range(n)]
-        tA = game.mk_teams(ctx, S, sizes)
-        tB0 = game.mk_teams(ctx, S, sizes)
+        if generic:
+            tA = [T.SymTeam(ctx, S.rating_cls, i) for i in range(n)]
+            tB0 = [T.SymTeam(ctx, S.rating_cls, i) for i in range(n)]
+            ctx.team_heap = [mA, mB]
+        else:
+            tA = game.mk_teams(ctx, S, sizes)
+            tB0 = game.mk_teams(ctx, S, sizes)
         for k, po in player_order.items():
             tB0[k] = [tB0[k][j] for j in po]
         tB = [tB0[k] for k in perm]
@@ -132,7 +144,7 @@ def unit_rate(model, sizes, perm, player_order=None, limit=False):
         for p, k in enumerate(perm):
             for jj in range(sizes[k]):
                 j = player_order[k][jj] if k in player_order else jj
-                for a, b, nm in ((oa[1][k][j].mu, ob[1][p][jj].mu, "mu"), (oa[1][k][j].sigma, ob[1][p][jj].sigma, "sigma")):
+                for a, b, nm in ((member(oa[1][k], j).mu, member(ob[1][p], jj).mu, "mu"), (member(oa[1][k], j).sigma, member(ob[1][p], jj).sigma, "sigma")):
                     o, be, note, t = P.prove_eq(term(a), term(b))
                     if not o:
                         ok = False
@@ -147,6 +159,10 @@ def unit_rate(model, sizes, perm, player_order=None, limit=False):
     try:
         explore(ctx, run, max_paths=500)
     except Exception as e:  # noqa: BLE001
+        from ..symrt import UncutLoop
+        if isinstance(e, UncutLoop):
+            return [driver.rec(f"C04/{model}/rate/presentation/any-team-size/unbounded-proof@{shape}", "note", "explorer", 0, kind="note", fn=fn, shape=shape,
+                               note=f"not attempted: {e}")]
         if "paths" not in str(e):
             raise
         recs.append(driver.rec(f"C04/{model}/rate/presentation/path-budget@{shape}", "open", "explorer", 0, fn=fn, shape=shape,
@@ -183,6 +199,14 @@ def units(tier):
                 perm = list(range(4))
                 perm[k], perm[k + 1] = perm[k + 1], perm[k]
                 us.append(("unit_rate", (m, sizes, tuple(perm))))
+        # teams of every size (symbolic member counts): every presentation order for n = 2, 3 (the adjacent
+        # transpositions for n = 4 in the thorough tier), with and without the clamp for n = 2
+        for n in ((2, 3) if tier == "quick" else (2, 3, 4)):
+            perms = [p for p in itertools.permutations(range(n)) if list(p) != list(range(n))] if n <= 3 else \
+                [tuple(range(k)) + (k + 1, k) + tuple(range(k + 2, n)) for k in range(n - 1)]
+            for perm in perms:
+                us.append(("unit_rate", (m, (1,) * n, perm, None, False, True)))
+        us.append(("unit_rate", (m, (1, 1), (1, 0), None, True, True)))
     us.sort(key=lambda u: -(sum(u[1][1]) * 2 ** len(u[1][1]) * (10 if u[0] == "unit_rate" else 1)))
     return us
 
